@@ -28,10 +28,12 @@ func init() {
 		ID:    "C16",
 		Level: "fault_enumeration",
 		Rule: "scripted raw-TCP backend whose bytes the harness knows, behind forward.New wrapped in NewStateListener and a status-recording writer under a real http.Server; response shapes: statuses 200-599, 0-10 headers, bodies 0..2MB, Content-Length or chunked with chunk patterns; fault kinds x positions: connection refused, close / RST at {accept, after the request was read, mid-head, after the head, mid-body at byte k, before the last chunk}, garbage head, stall beyond ResponseHeaderTimeout, stall in the middle of the response head detected by an idle deadline on the backend connection, client cancel before the head and mid-body; " +
+			"further shapes: 103 Early Hints first, statuses 600-999, head-first streams (the backend waits until the client holds the head), a stall in the middle of the head detected by an idle deadline on the backend connection (504); a third of the fault-free/refused/closed cases run with the forwarder behind a never-tripping circuit breaker or a rebalanced round-robin; " +
 			"expected client view and status mapping computed from the script (502 when no response byte was received, 504 on header timeout, 499 recorded for a cancelled client, 500 or 502 for a damaged head, the head plus a prefix of the body and never extra bytes for a failure after the head); every 'connected' must be followed by exactly one 'disconnected'; a probe request must succeed after each fault; non-trivial = case with a fault or a body >= 64kB or chunked framing; distinct by (fault kind, position, response shape)",
-		Assumptions: []string{"hang watchdog of 60s per request (here a hang is a violation, by the statement)", "ResponseHeaderTimeout of the proxy's transport set to 150ms to make the timeout class reachable"},
+		Assumptions: []string{"hang watchdog of 60s per request (here a hang is a violation, by the statement)", "ResponseHeaderTimeout 150ms on a forwarder used only for the stall fault, idle read deadline 300ms on a forwarder used only for the stall-mid-head fault; every other case runs with generous timeouts"},
 		Parts: []Part{{Name: "relay", Shards: 12, Fn: c16Relay},
-			{Name: "concrelay", Race: true, Shards: 2, Fn: c16ConcRelay}},
+			{Name: "concrelay", Race: true, Shards: 2, Fn: c16ConcRelay},
+			{Name: "manystreams", Shards: 1, Fn: c16ManyStreams}},
 	})
 }
 
@@ -48,6 +50,8 @@ type c16Plan struct {
 	Early     bool   `json:"early_hints,omitempty"` // fault none: the backend sends 103 Early Hints before its response
 	Behind    string `json:"behind,omitempty"`      // the forwarder sits behind another oxy middleware: "" | breaker | rebalancer
 	HeadFirst bool   `json:"head_first,omitempty"`  // fault none, chunked: the backend sends its head and waits until the client has it
+	// the routing step (req.URL = backend) sits between the state listener and the forwarder, on the same request object
+	RouteInside bool `json:"route_inside_listener,omitempty"`
 }
 
 type c16Backend struct {
@@ -291,6 +295,9 @@ func c16Relay(c *Ctx) {
 	origErrHandler := fwd.ErrorHandler // whatever forward.New installed stays in charge
 	recErrHandler := func(w http.ResponseWriter, req *http.Request, err error) {
 		id := req.URL.Query().Get("id")
+		if id == "" {
+			id = req.URL.Query().Get("rid") // routed inside the listener
+		}
 		mu.Lock()
 		if res := results[id]; res != nil {
 			res.errs = append(res.errs, err.Error())
@@ -316,6 +323,12 @@ func c16Relay(c *Ctx) {
 	sl := forward.NewStateListener(fwd, listen)
 	slStall := forward.NewStateListener(fwdStall, listen)
 	slIdle := forward.NewStateListener(fwdIdle, listen)
+	slRoute := forward.NewStateListener(http.HandlerFunc(func(w http.ResponseWriter, req *http.Request) {
+		// route, then forward: the listener in front has seen the inbound URL and must report both events for it
+		req.URL = &url.URL{Scheme: "http", Host: req.Header.Get("X-Route-To"), Path: "/routed", RawQuery: "rid=" + req.URL.Query().Get("id")}
+		req.Header.Del("X-Route-To")
+		fwd.ServeHTTP(w, req)
+	}), listen)
 	// the same forwarder as deployments have it: behind a circuit breaker that never trips, or as the handler of a
 	// rebalanced round-robin whose single server entry is a placeholder (the handler keeps the URL it was given)
 	behindBreaker, err := cbreaker.New(sl, "NetworkErrorRatio() > 1.5")
@@ -363,6 +376,12 @@ func c16Relay(c *Ctx) {
 		defer close(ch)
 		target := req.Header.Get("X-Target")
 		req.Header.Del("X-Target")
+		if req.Header.Get("X-Route-Inside") != "" {
+			req.Header.Del("X-Route-Inside")
+			req.Header.Set("X-Route-To", target)
+			slRoute.ServeHTTP(&statusRec{w, &mu, &res.code}, req)
+			return
+		}
 		req.URL = &url.URL{Scheme: "http", Host: target, Path: req.URL.Path, RawQuery: req.URL.RawQuery}
 		switch req.Header.Get("X-Behind") {
 		case "breaker":
@@ -424,6 +443,9 @@ func c16Relay(c *Ctx) {
 				p.BodyLen = 1 + r.IntN(2000)
 			}
 		}
+		if p.Behind == "" && p.Fault != "stall" && p.Fault != "stall-mid-head" && r.IntN(4) == 0 {
+			p.RouteInside = true
+		}
 		if r.IntN(12) == 0 && p.Fault == "none" {
 			p.Status = pick(r, []int{600, 612, 799, 999}) // unusual but legal: net/http accepts every three-digit status
 		}
@@ -473,6 +495,10 @@ func c16Relay(c *Ctx) {
 		req.Header.Set("X-Target", back.l.Addr().String())
 		if p.Fault == "stall-mid-head" {
 			req.Header.Set("X-Stall", "idle")
+		}
+		if p.RouteInside {
+			req.Header.Set("X-Route-Inside", "1")
+			c.Count("cases_routed_inside_the_listener", 1)
 		}
 		if p.Behind != "" {
 			req.Header.Set("X-Behind", p.Behind)
@@ -860,4 +886,99 @@ type idleConn struct {
 func (c idleConn) Read(p []byte) (int, error) {
 	_ = c.Conn.SetReadDeadline(time.Now().Add(c.d))
 	return c.Conn.Read(p)
+}
+
+// c16ManyStreams: a forwarder exactly as forward.New builds it (its own default transport) relays many long-lived
+// responses to one backend at the same time (event streams, long polls); a further plain request to the same backend
+// must still be relayed promptly, never left hanging behind the open streams.
+func c16ManyStreams(c *Ctx) {
+	c.Cases("streams", c.N(2, 12), func(i int, r *rand.Rand) {
+		release := make(chan struct{})
+		var released sync.Once
+		defer released.Do(func() { close(release) })
+		backend := newTestServer(http.HandlerFunc(func(w http.ResponseWriter, req *http.Request) {
+			if req.URL.Path == "/plain" {
+				w.WriteHeader(http.StatusTeapot)
+				return
+			}
+			w.Header().Set("Content-Type", "text/event-stream")
+			w.WriteHeader(200)
+			if f, ok := w.(http.Flusher); ok {
+				f.Flush()
+			}
+			select {
+			case <-release:
+			case <-req.Context().Done():
+			}
+			_, _ = w.Write([]byte("data: bye\n\n"))
+		}))
+		defer backend.Close()
+		burl, _ := url.Parse(backend.URL)
+		fwd := forward.New(false)
+		proxy := newTestServer(http.HandlerFunc(func(w http.ResponseWriter, req *http.Request) {
+			req.URL = &url.URL{Scheme: "http", Host: burl.Host, Path: req.URL.Path}
+			fwd.ServeHTTP(w, req)
+		}))
+		defer proxy.Close()
+		client := &http.Client{Transport: &http.Transport{MaxIdleConnsPerHost: 100}, Timeout: 120 * time.Second}
+		n := 33 + r.IntN(28)
+		type opened struct {
+			resp *http.Response
+			err  error
+		}
+		heads := make(chan opened, n)
+		for k := 0; k < n; k++ {
+			go func() {
+				resp, err := client.Get(proxy.URL + "/stream")
+				heads <- opened{resp, err}
+			}()
+		}
+		var open []*http.Response
+		deadline := time.After(60 * time.Second)
+		for k := 0; k < n; k++ {
+			select {
+			case o := <-heads:
+				if o.err != nil {
+					c.Eval()
+					c.Violation("streams/failed", sfmt("stream %d of %d through the forwarder failed: %v", k+1, n, o.err), nil)
+					return
+				}
+				open = append(open, o.resp)
+			case <-deadline:
+				c.Eval()
+				c.Violation("streams/head-missing", sfmt("%d event streams opened through one forwarder to one backend: only %d delivered their response head within 60s (the backend answers at once)", n, len(open)), nil)
+				return
+			}
+		}
+		c.Count("streams_open_at_once", int64(n))
+		plain := make(chan opened, 1)
+		go func() {
+			resp, err := client.Get(proxy.URL + "/plain")
+			plain <- opened{resp, err}
+		}()
+		c.Eval()
+		select {
+		case o := <-plain:
+			if o.err != nil || o.resp.StatusCode != http.StatusTeapot {
+				c.Violation("streams/plain-wrong", sfmt("with %d streams open, a plain request got %v / %v, want the backend's 418", n, o.resp, o.err), nil)
+				return
+			}
+			o.resp.Body.Close()
+		case <-time.After(30 * time.Second):
+			c.Violation("streams/plain-hangs", sfmt("with %d long-lived responses from one backend open through the forwarder, a further plain request to that backend got no status within 30s (neither the backend's 418 nor 502/504): it hangs", n), nil)
+			return
+		}
+		released.Do(func() { close(release) })
+		for _, resp := range open {
+			b, _ := io.ReadAll(resp.Body)
+			resp.Body.Close()
+			if !bytes.Contains(b, []byte("bye")) {
+				c.Violation("streams/body", sfmt("a released stream delivered %q", string(b)), nil)
+				return
+			}
+		}
+		c.Nontrivial(sfmt("streams/%d/%d", n, i))
+		c.Count("manystreams_nontrivial", 1)
+	})
+	c.Require("manystreams_nontrivial", 2)
 }
